@@ -1,11 +1,16 @@
 ----------------------------- MODULE MOASHA_Gen -----------------------------
-(* Report schedules for MOASHA: which trial reports next and which objective  *)
-(* vector; the driver adds trials on demand and skips reports of stopped ones *)
+(* Report schedules for MOASHA: which trial reports next, which objective    *)
+(* vector, how many iterations it advanced since its last report (sparse     *)
+(* reporters), and which trial completes (its last result is then passed to  *)
+(* on_trial_complete).  The driver adds trials on demand and skips events of *)
+(* trials that are stopped or completed.                                     *)
 EXTENDS Integers, Sequences, FiniteSets, TLC, Json
-CONSTANTS NTrials, Vals, Dim, GenLen
+CONSTANTS NTrials, Vals, Dim, GenLen, MaxSkip
 VARIABLES hist
 Init == hist = <<>>
-Next == \E t \in 0..(NTrials - 1), v \in [1..Dim -> Vals] : hist' = Append(hist, [a |-> "Report", t |-> t, v |-> v])
+Next == \/ \E t \in 0..(NTrials - 1), v \in [1..Dim -> Vals], s \in 1..MaxSkip :
+             hist' = Append(hist, [a |-> "Report", t |-> t, v |-> v, skip |-> s])
+        \/ \E t \in 0..(NTrials - 1) : hist' = Append(hist, [a |-> "Complete", t |-> t])
 Spec == Init /\ [][Next]_hist
 Emit == (Len(hist') = GenLen) => PrintT(<<"@@GEN@@", ToJson(hist')>>)
 Bound == Len(hist) <= GenLen
